@@ -141,8 +141,9 @@ Definition is_benign (v : verdict) : bool := match v with Benign _ => true | Lea
    fact disappears or becomes benign; the obligation below holds in both situations. *)
 Definition fact_key (f : fact) : string := f_func f ++ "/" ++ f_ident f.
 Definition known_leaks : list string :=
-  [ "MainSolver::check/query_timer";       (* :time-queries prints the accumulated CPU time on stdout *)
-    "MainSolver::check/getTime()" ].
+  [ "MainSolver::check/query_timer";       (* :time-queries printed the accumulated CPU time on stdout (repaired: /repo aebd21d) *)
+    "MainSolver::check/getTime()";
+    "ConfValue/union:strval|numval" ].     (* option values: a symbol/string value is read back through .numval = address bits *)
 
 Definition is_known (f : fact) : bool := existsb (String.eqb (fact_key f)) known_leaks.
 Definition fact_ok (f : fact) : bool := is_benign (classify f) || is_known f.
